@@ -70,6 +70,14 @@ let () =
     | _ -> arity ());
   reg "dln_verify" (fun a -> match a with [h1; h2; n; al; t] ->
     vout vbool (Model.dln_verify h_sha512_256 (as_int h1) (as_int h2) (as_int n) (as_ints al) (as_ints t)) | _ -> arity ());
+  (* dln_unmarshal_verify [wire parts as bytes] h1 h2 N: decode (numbers = big-endian values of the parts), then verify *)
+  reg "dln_unmarshal_verify" (fun a -> match a with [w; h1; h2; n] ->
+    let nums = List.map (fun b -> Model.be_value (as_bytes b)) (as_list w) in
+    (match Model.dln_unmarshal nums with
+     | Model.Ok (al, t) -> (match Model.dln_verify h_sha512_256 (as_int h1) (as_int h2) (as_int n) al t with
+                            | Model.Ok b -> L [A "Ok"; vout vbool (Model.Ok b)]
+                            | Model.Err -> A "Err" | Model.Panic -> A "Panic" | Model.Diverge -> A "Diverge")
+     | Model.Err -> A "Err" | Model.Panic -> A "Panic" | Model.Diverge -> A "Diverge") | _ -> arity ());
   reg "pai_verify" (fun a -> match a with [n; k; pub; pf] ->
     (match dec_pt Model.secp256k1 pub with
      | Some (Some (sx, sy)) ->
